@@ -808,13 +808,14 @@ example :
     · exact h
     · simp [exEnv] at h
 
-/-- a failing write after which the file object, closed on the way out, writes once more what it still holds (`after`):
-the events are those of `failedWrite`, the target is untouched at every crash point, the temporary file is gone -/
+/-- a failing write after which the file object, closed on the way out, writes once more what it still holds and fails
+again with the rest (`after`: the disk is full): the events are those of `failedWrite`, the target is untouched at every
+crash point, the temporary file is gone -/
 example :
     let fs : FS Nat := fun p => if p = 0 then some [9] else none
-    let r := saveRun (P := Nat) 0 1 [[2, 3], [4]] (some ⟨1, [2], [[2, 3], [4]]⟩)
+    let r := saveRun (P := Nat) 0 1 [[2, 3], [4]] (some ⟨1, [2], [([2, 3], false), ([], true)]⟩)
     r.evs.length = 6 ∧ r.raised = true ∧ CrashSafe fs 0 [2, 3, 4] r.evs ∧ FaultSafe fs 0 1 [2, 3, 4] r.evs ∧
-    applyEvs fs (r.evs.take 4) 1 = some [2, 2, 3, 4] := by
+    applyEvs fs (r.evs.take 4) 1 = some [2, 2, 3] := by
   refine ⟨by decide +kernel, by decide +kernel, ?_, ?_, by decide +kernel⟩
   · exact crash_atomic 0 1 (by decide) [2, 3, 4] [[2, 3], [4]] rfl _ _
   · exact fault_atomic 0 1 (by decide) [2, 3, 4] [[2, 3], [4]] rfl _ _
